@@ -182,8 +182,59 @@ let spec_out (env : penv) (c : chain) (p : prefix) (v : path) : string =
   let (v', rej) = chain_ref env c p v in
   b2c rej ^ "111|" ^ render v'
 
+(* ---- configuration cases *)
+
+let parse_names tag : n list =
+  expect tag;
+  let k = num () in
+  times k (fun () -> nn (next ()))
+
+let parse_cfg () : cfg =
+  expect "cfg";
+  let ns = num () in
+  let stmts = times ns (fun () ->
+    expect "st";
+    let name = nn (next ()) in
+    let nt = num () in
+    let terms = times nt (fun () ->
+      expect "ct";
+      let nr = num () in
+      let rfs = times nr (fun () ->
+        expect "crf";
+        let idx = num () in
+        let ok = (next () = "1") in
+        let m = next () in
+        { crf_pat = n_of_int idx; crf_ok = ok; crf_m = (if m = "bad" then None else Some (parse_matcher m)) }) in
+      expect "th";
+      let rej = (next () = "1") in
+      let opt s = if s = "-" then None else Some (nn s) in
+      let lp = opt (next ()) in
+      let med = opt (next ()) in
+      let pp = (match next () with
+        | "-" -> None
+        | s -> (match String.split_on_char ':' s with
+                | [a; c] -> Some (nn a, nn c)
+                | _ -> raise (Bad ("bad prepend " ^ s)))) in
+      let nh = (match next () with
+        | "-" -> None
+        | "bad" -> Some None
+        | s -> Some (Some (parse_ip s))) in
+      let acc = (next () = "1") in
+      { ct_rfs = rfs; ct_then = { th_reject = rej; th_lp = lp; th_med = med; th_pp = pp; th_nh = nh; th_accept = acc } }) in
+    { cs_name = name; cs_terms = terms }) in
+  let gi = parse_names "gi" in
+  let ge = parse_names "ge" in
+  let ni = parse_names "ni" in
+  let ne = parse_names "ne" in
+  { cfg_stmts = stmts; cfg_gimport = gi; cfg_gexport = ge; cfg_nimport = ni; cfg_nexport = ne }
+
+let policy_out (env : penv) (cf : cfg) (names : n list) (p : prefix) (v : path) : string =
+  let (v', rej) = policy_ref env cf.cfg_stmts names p v in
+  b2c rej ^ "111|" ^ render v'
+
 let () =
-  let compared = ref 0 and mism = ref 0 and speceval = ref 0 in
+  let compared = ref 0 and mism = ref 0 and speceval = ref 0 and cfgcases = ref 0 in
+  let cut s = if String.length s > 400 then String.sub s 0 400 ^ "..." else s in
   iter_trace Sys.argv.(1) (fun id inp obs ->
     try
       toks := Array.of_list inp; pos := 0;
@@ -192,9 +243,16 @@ let () =
       let pool = Array.of_list (times n (fun () -> parse_pfx (next ()))) in
       let dflt = { pf_addr = { ip_v4 = true; ip_hi = N0; ip_lo = N0 }; pf_len = N0 } in
       let env : penv = fun i -> let k = int_of_n i in if k < Array.length pool then pool.(k) else dflt in
-      expect "C"; let c = parse_chain () in
-      expect "D"; let d = parse_chain () in
-      let _leaf = next () in
+      let is_cfg = (!pos < Array.length !toks && !toks.(!pos) = "cfg") in
+      let cfo = if is_cfg then Some (parse_cfg ()) else None in
+      let chains =
+        match cfo with
+        | Some cf -> incr cfgcases; load_cfg cf
+        | None ->
+          expect "C"; let c = parse_chain () in
+          expect "D"; let d = parse_chain () in
+          let _leaf = next () in
+          Some (c, d) in
       expect "in";
       let k = num () in
       let inputs = times k (fun () -> let pf = parse_pfx (next ()) in let pa = parse_path () in (pf, pa)) in
@@ -203,28 +261,31 @@ let () =
       let note what m i = if !bad = None && m <> i then bad := Some (what, m, i) in
       let obs = Array.of_list obs in
       let ob j = if j < Array.length obs then obs.(j) else "<missing>" in
-      note "Equal" ("eq=" ^ b2c (chain_equal c d) ^ b2c (chain_equal d c)) (ob 0);
-      let wfc = chain_wfb env c and wfd = chain_wfb env d in
-      List.iteri (fun i (pf, pa) ->
-        let oc = ob (1 + 2 * i) and od = ob (2 + 2 * i) in
-        note (Printf.sprintf "input %d chain C" i) (model_out env c pf pa) oc;
-        note (Printf.sprintf "input %d chain D" i) (model_out env d pf pa) od;
-        if prefix_wfb pf && path_wfb pa then begin
-          List.iter (fun (which, wf, ch, o) ->
-            if wf then begin
-              incr speceval;
-              let s = spec_out env ch pf pa in
-              if s <> o then
-                Printf.printf "SPEC-VIOLATION case=%s sig=process-vs-reference:extracted-spec chain %s input %d: impl=%s spec=%s\n"
-                  id which i (if String.length o > 300 then String.sub o 0 300 else o)
-                  (if String.length s > 300 then String.sub s 0 300 else s)
-            end) [("C", wfc, c, oc); ("D", wfd, d, od)]
-        end) inputs;
+      (match chains with
+       | None -> note "config load" "LOADERR" (ob 0)
+       | Some (c, d) ->
+         note "Equal" ("eq=" ^ b2c (chain_equal c d) ^ b2c (chain_equal d c)) (ob 0);
+         let wfc = chain_wfb env c and wfd = chain_wfb env d in
+         List.iteri (fun i (pf, pa) ->
+           let oc = ob (1 + 2 * i) and od = ob (2 + 2 * i) in
+           note (Printf.sprintf "input %d chain C" i) (model_out env c pf pa) oc;
+           note (Printf.sprintf "input %d chain D" i) (model_out env d pf pa) od;
+           if prefix_wfb pf && path_wfb pa then begin
+             List.iter (fun (which, wf, ch, o, imp) ->
+               if wf then begin
+                 incr speceval;
+                 let s = (match cfo with
+                   | Some cf -> policy_out env cf (if imp then import_names cf else export_names cf) pf pa
+                   | None -> spec_out env ch pf pa) in
+                 if s <> o then
+                   Printf.printf "SPEC-VIOLATION case=%s sig=process-vs-reference:extracted-%s chain %s input %d: impl=%s spec=%s\n"
+                     id (if cfo = None then "spec" else "config-spec") which i (cut o) (cut s)
+               end) [("C", wfc, c, oc, true); ("D", wfd, d, od, false)]
+           end) inputs);
       (match !bad with
        | None -> ()
        | Some (what, m, i) ->
          incr mism;
-         let cut s = if String.length s > 400 then String.sub s 0 400 ^ "..." else s in
          Printf.printf "CORR-MISMATCH case=%s %s: model=%s impl=%s\n" id what (cut m) (cut i))
     with Bad msg -> Printf.printf "MODEL-ERROR case=%s cannot parse: %s\n" id msg);
-  Printf.printf "STATS compared=%d mismatches=%d spec_evaluations=%d\n" !compared !mism !speceval
+  Printf.printf "STATS compared=%d mismatches=%d spec_evaluations=%d config_cases=%d\n" !compared !mism !speceval !cfgcases
